@@ -79,7 +79,11 @@ def gen_plan(seed, tier="quick"):
     if x < 0.3:
         plan["fault"] = [r.randrange(0, 12), r.choice(["drop", "garble", "garble", "garble-same"])]
     elif x < 0.55 and seq == "types":
-        plan["script"] = [r.choice(ALPHABET) for _ in range(r.randrange(1, 7))]
+        # (type numbers the library has no name for are as good as any: 2-4 of them join the alphabet)
+        xa = plans.rng_for(seed, PROP + "-alphabet")
+        extra = [xa.randrange(2, 254) for _ in range(2)]
+        alpha = ALPHABET + extra + extra + [255] if xa.random() < 0.5 else ALPHABET
+        plan["script"] = [r.choice(alpha) for _ in range(r.randrange(1, 7))]
     if seed % 40 == 13:
         # 'stacked' transport: the same scenario through a real asyncio driver and
         # its gateway model (fault-free; serial gateways report collisions as silence)
